@@ -255,6 +255,27 @@ def freeze_establishes_invariant(report):
     rel.data.update(gxx=np.ones((6, 6, 6)), my_custom=np.ones((6, 6, 6)), Kdown3=np.zeros((3, 3, 6, 6, 6)))
     rel.freeze_data()
     ok &= all(rel.var_importance.get(k, 1.0) == 0 for k in rel.data)
+    # freeze after some requests were already made (inputs and results are then in the age table): still every key present
+    relb = AurelCore(fd, verbose=False, clear_cache_every_nbr_calc=1)
+    relb.data.update(gxx=7.0 * np.ones((6, 6, 6)), kxx=0.5 * np.ones((6, 6, 6)), my_custom=np.ones((6, 6, 6)))
+    relb['gammadet']
+    relb['Ktrace']
+    relb['my_custom']
+    relb.freeze_data()
+    late_ok = all(relb.var_importance.get(k, 1.0) == 0 for k in relb.data)
+    if not late_ok:
+        left = sorted(k for k in relb.data if relb.var_importance.get(k, 1.0) != 0)
+        for k in ('gammaup3', 'betadown3', 'gdet', 'gup4', 'Kup3', 's_RicciS'):
+            relb[k]
+        gone = [k for k in ('gxx', 'kxx', 'my_custom', 'gammadown3', 'Kdown3') if k not in relb.data]
+        wrong = bool(np.any(relb['gammadown3'][0, 0] != 7.0)) or bool(np.any(relb['Kdown3'][0, 0] != 0.5))
+        if gone or wrong:
+            report.violation('freeze-invariant:after-requests',
+                             f'freeze_data() after rel[gammadet], rel[Ktrace], rel[my_custom] leaves {left} unfrozen; six requests later '
+                             f'(clean-up every calculation) {gone} are evicted' + (' and gammadown3/Kdown3 fell back to defaults' if wrong else ''),
+                             report.write_replay('freeze-after-requests', dict(unfrozen=left, evicted=gone, fell_back=wrong)))
+        else:
+            report.harness_errors.append(f'freeze_data after requests leaves {left} unfrozen but the real clean-up run shows no eviction')
     rel2 = AurelCore(fd, verbose=False)
     rel2.load_data({'gxx': [np.ones((6, 6, 6))] * 2, 'weird': [np.ones((6, 6, 6))] * 2}, 1)
     ok &= all(rel2.var_importance.get(k, 1.0) == 0 for k in rel2.data)
@@ -262,20 +283,56 @@ def freeze_establishes_invariant(report):
     orig = atime.core.AurelCore
 
     class Spy(orig):
-        def freeze_data(self):
-            super().freeze_data()
+        def __init__(self, *a, **k):
+            super().__init__(*a, **k)
             captured['rel'] = self
+
+    def custom(r):
+        # the first moment a calculation (and so a clean-up) can happen: every input must already be frozen here
+        captured['importance_at_first_request'] = {k: r.var_importance.get(k, 1) for k in r.data}
+        return r['gxx'] * 2
     atime.core.AurelCore = Spy
     try:
         d = {'it': 0, 'gxx': np.ones((6, 6, 6)), 'extra_input': np.ones((6, 6, 6))}
-        atime.process_single_timestep(d, fd, ['gammadet', {'cust': lambda r: r['gxx'] * 2}], [], False, None, {})
+        atime.process_single_timestep(d, fd, [{'cust': custom}, 'gammadet'], [], False, None, {})
     finally:
         atime.core.AurelCore = orig
-    r3 = captured['rel']
-    for k in ('it', 'gxx', 'extra_input', 'cust'):
-        ok &= (k in r3.data and r3.var_importance.get(k, 1) == 0)
-    report.record('freeze_data/load_data/process_single_timestep set importance 0 on every key present',
-                  'holds' if ok else 'sat', group='freeze establishes the invariant (concrete execution)',
+    r3 = captured.get('rel')
+    ok_ts = r3 is not None and 'importance_at_first_request' in captured
+    if ok_ts:
+        snap = captured['importance_at_first_request']
+        for k in ('it', 'gxx', 'extra_input'):
+            ok_ts &= (snap.get(k, 1) == 0)
+        for k in ('it', 'gxx', 'extra_input', 'cust'):
+            ok_ts &= (k in r3.data and r3.var_importance.get(k, 1) == 0)
+    if not ok_ts:
+        # concrete confirmation through the real driver and the real clean-up: a custom variable that makes more
+        # calculations than one clean-up period must see the inputs it was given, not re-created defaults
+        seen = {}
+
+        def heavy(r):
+            for k in ('gammadet', 'gammaup3', 'Ktrace', 'betadown3', 'gdet', 'gup4', 'Kup3'):
+                r[k]
+            seen['gxx_is_input'] = bool(np.all(r['gxx'] == 7.0)) and bool(np.all(r['gammadown3'][0, 0] == 7.0))
+            seen['extra_present'] = 'extra_input' in r.data
+            return r['gxx']
+        d = {'it': 0, 'gxx': 7.0 * np.ones((6, 6, 6)), 'extra_input': np.ones((6, 6, 6))}
+        try:
+            atime.process_single_timestep(d, fd, [{'cust': heavy}], [], False, None, {'clear_cache_every_nbr_calc': 2})
+        except Exception as e:  # noqa
+            seen['error'] = repr(e)[:200]
+        evicted = (not seen.get('gxx_is_input', False)) or (not seen.get('extra_present', False)) or 'error' in seen
+        if evicted:
+            report.violation('freeze-invariant:process_single_timestep',
+                             'process_single_timestep lets a custom variable run before its inputs are frozen; with a clean-up every 2 '
+                             f'calculations the custom function no longer sees its inputs: {seen}',
+                             report.write_replay('freeze-invariant-timestep', dict(seen=seen, snapshot={k: float(v) for k, v in captured.get('importance_at_first_request', {}).items()})))
+        else:
+            report.harness_errors.append(f'process_single_timestep: inputs not frozen at the first request ({captured.get("importance_at_first_request")}) '
+                                         f'but the real clean-up run shows no eviction: {seen}')
+    report.record('freeze_data/load_data/process_single_timestep set importance 0 on every key present (for the driver: before the first '
+                  'request a custom variable can make)',
+                  'holds' if (ok and ok_ts and late_ok) else 'sat', group='freeze establishes the invariant (concrete execution)',
                   kind='concrete', trivial=True)
     if not ok:
         # concrete confirmation through the real clean-up: a frozen custom input that was read once must survive
